@@ -613,6 +613,15 @@ func c16Process(c *Ctx, it c16Item) c16Go {
 			c.Op("specfields "+h, fieldsImpl)
 		}
 	}
+	// Hypothesis `seqsAgree` of bash_equiv_partial: whenever SplitBraces accepts `{…}` as one
+	// sequence, bash's expand_seqterm (Lean transcription) must read the same parameters.
+	if len(g.tree.Parts) == 2 {
+		if br, ok := g.tree.Parts[0].(*syntax.BraceExp); ok && br.Sequence {
+			if l, ok := g.tree.Parts[1].(*syntax.Lit); ok && l.Value == "" {
+				c.Op("specseqagree "+h, "true")
+			}
+		}
+	}
 	// seq_exact / limit_iff on the implementation, with big-integer arithmetic as oracle:
 	// a word that is exactly one sequence must yield count elements (or the limit error iff
 	// count > 16384).
@@ -982,7 +991,7 @@ func c16(c *Ctx) {
 		out [][]string
 		ok  bool
 	}
-	results := parallelMap(nb, 8, func(b int) bres {
+	results := parallelMap(nb, 4, func(b int) bres {
 		lo, hi := b*batch, min((b+1)*batch, len(bashIdx))
 		ws := make([]string, hi-lo)
 		for k := lo; k < hi; k++ {
